@@ -35,9 +35,24 @@ def store_subjects(tier, purpose="general"):
     out.append(S("rpfs", 1, live=2, prios=[0], td=1, age_cap=2))
     if not q:
         out.append(S("rpfs", 3, live=3, prios=[0, 1], drain=1, age_cap=0.5))
+        out.append(S("rpfs", 3, live=1, live_p=1, live_g=3, prios=[0], filters=[None, "blue"], colors=["red", "blue"], drain=1, age_cap=0.5, notime=1))
         out.append(S("rpfs", 2, live=3, prios=[0], filters=[None, "blue", "red"], colors=["red", "blue"], drain=1, age_cap=0.5))
         out.append(S("rpfs", 2, live=2, prios=[0, 1], td=1, age_cap=2))
         out.append(S("rpfs", 2, live=2, prios=[0], td=2, drain=1, age_cap=4, filters=[None, "blue"], colors=["red", "blue"], puts_per_instant=2))
+    # asymmetric subjects: three or four of a kind on one side (outstanding retrievals, waiting space requests, items inside),
+    # the other side kept to one or two so that the state space stays small
+    out.append(S("rs", 3, live=1, live_p=1, live_g=3))
+    out.append(S("rs", 4, live=1, live_p=2, live_g=4))
+    out.append(S("rps", 3, live=1, live_p=1, live_g=3, prios=[0, 1]))
+    out.append(S("rpfs", 3, live=1, live_p=1, live_g=2, prios=[0], filters=[None, "blue"], colors=["red", "blue"], drain=1, age_cap=0.5, notime=1))
+    out.append(S("rpfs", 4, live=1, live_p=1, live_g=2, prios=[0], filters=[None, "blue"], colors=["red", "blue"], drain=1, age_cap=0.5, notime=1))
+    for mode in ("FIFO", "LIFO"):
+        out.append(S("buffer", 3, live=1, live_p=2, live_g=3, mode=mode, delays=[0], drain=1, age_cap=0.5, notime=1))
+        out.append(S("buffer", 3, live=1, live_p=2, live_g=1, mode=mode, delays=[0, 1], drain=1, age_cap=2))
+    out.append(S("buffer", 4, live=1, live_p=1, live_g=4, mode="FIFO", delays=[0], drain=1, age_cap=0.5, notime=1))
+    out.append(S("buffer", 4, live=1, live_p=2, live_g=1, mode="FIFO", delays=[0, 1], drain=1, age_cap=2))
+    out.append(S("buffer", 3, live=1, live_p=1, live_g=3, mode="FIFO", delays=[0, 1], drain=1, age_cap=2))
+    out.append(S("buffer", 3, live=1, live_p=2, live_g=2, mode="LIFO", delays=[0, 1], drain=1, age_cap=2))
     for mode in ("FIFO", "LIFO"):
         out.append(S("buffer", 2, live=2, mode=mode, delays=[0, 1], drain=1, age_cap=2))
         out.append(S("buffer", 1, live=2, mode=mode, delays=[0, 1], age_cap=2))
@@ -53,6 +68,7 @@ def fleet_subjects(tier, c14=False):
     if c14:
         out.append(S("fleet", 3, live=1, delay=2, transit=1, drain=1, age_cap=5, grid=1))
         out.append(S("fleet", 3, live=1, delay=1, transit=1, drain=1, age_cap=4, grid=1))     # overlapping trips, 3 items
+        out.append(S("fleet", 3, live=1, delay=1, transit=1.5, drain=1, age_cap=4, grid=0.5))   # three trips under way at once
         out.append(S("fleet", 2, live=2, delay=2, transit=1, drain=1, age_cap=5, grid=1, notime=1))   # two waiting retrievals
         out.append(S("fleet", 2, live=1, delay=1, transit=1, drain=1, age_cap=4, grid=0.5))
         out.append(S("fleet", 2, live=1, delay=2, transit=0, drain=1, age_cap=3, grid=1))
@@ -93,6 +109,9 @@ def conveyor_subjects(tier):
     # speed != 1: time and distance units differ (T = 1, one item length of travel = 0.5)
     out.append(S("cconv", 2, live=1, drain=1, eager_get=1, age_cap=2, grid=0.25, acc=1, ilen=1, clen=2, speed=2))
     out.append(S("cconv", 2, live=1, drain=1, eager_get=1, age_cap=2, grid=0.25, acc=0, ilen=1, clen=2, speed=2))
+    # ... four slots at speed 2, accumulating: items admitted during a stall have empty slots ahead of them
+    out.append(S("cconv", 4, live=1, drain=1, eager_get=1, age_cap=3, grid=0.5, acc=1, ilen=1, clen=4, speed=2, notime=1,
+                 cap_states=30000 if q else 200000))
     # three slots on a half-slot grid: a follower can be caught by a stall in the middle of its phase 2
     out.append(S("cconv", 3, live=1, drain=1, eager_get=1, age_cap=5, grid=0.5, acc=0))
     # four slots, accumulating, on the slot grid: several touching followers, zero-length stalls, repeated stalls
@@ -122,7 +141,14 @@ def jobs_for(prop, tier):
     caps = {"max_states": 60000 if q else 500000, "max_seconds": 900 if q else 1200}
     if prop in ENGINE_S_PROPS:
         for sp in store_subjects(tier) + fleet_subjects(tier):
-            jobs.append({"engine": "S", "prop": prop, "label": sp.label() + "#" + _h(sp), "spec": sp.to_json(), "caps": caps})
+            c1 = dict(caps)
+            if prop == "C06" and q:
+                # the possible-worlds monitor of C06 multiplies the states of subjects with many outstanding retrievals
+                if sp.cap == 4 and sp.get("live_g") == 4:
+                    continue
+                if sp.kind == "buffer" and sp.cap == 3 and sp.get("live_g", 0) >= 2 and sp.get("delays") == [0, 1]:
+                    c1["max_states"] = 12000
+            jobs.append({"engine": "S", "prop": prop, "label": sp.label() + "#" + _h(sp), "spec": sp.to_json(), "caps": c1})
         ccaps = {"max_states": 9000 if q else 150000, "max_seconds": 900 if q else 1200}
         for sp in conveyor_store_subjects(tier, eager=(prop == "C04")):
             jobs.append({"engine": "S", "prop": prop, "label": sp.label() + "#" + _h(sp), "spec": sp.to_json(), "caps": ccaps})
@@ -131,6 +157,12 @@ def jobs_for(prop, tier):
     elif prop in F_FAMILIES:
         jobs = f_jobs(prop, tier)
     if prop == "C05":
+        # queue-heavy subjects: four waiting requests on one side, three priority values (a middle position among equals exists)
+        for sp in (S("rps", 1, live=1, live_p=4, live_g=1, prios=[0, 1, 2]), S("rps", 1, live=1, live_p=1, live_g=4, prios=[0, 1, 2]),
+                   S("rpfs", 1, live=1, live_p=4, live_g=1, prios=[0, 1, 2], drain=1, age_cap=0.5, notime=1),
+                   S("rpfs", 1, live=1, live_p=1, live_g=4, prios=[0, 1, 2], drain=1, age_cap=0.5, notime=1)):
+            jobs.append({"engine": "S", "prop": prop, "label": sp.label() + "#" + _h(sp), "spec": sp.to_json(), "caps": caps})
+        jobs.append({"engine": "PRS", "prop": prop, "label": "prs(cap=1,live=4)", "cap": 1, "live": 4, "prios": [0, 1, 2]})
         for cap in ((1, 2) if q else (1, 2, 3)):
             jobs.append({"engine": "PRS", "prop": prop, "label": "prs(cap=%d)" % cap, "cap": cap, "live": 2 if q else 3,
                          "prios": [0, 1] if q else [-1, 0, 1]})
@@ -198,15 +230,15 @@ def jobs_for(prop, tier):
 F_FAMILIES = {
     "C01": ["lines", "congestion", "diamonds", "conveyors", "combiners"],
     "C06": ["diamonds", "fans", "splitters", "conveyors"],
-    "C03": ["lines", "congestion", "diamonds", "combiners", "splitters", "conveyors", "draining", "nonblocking_fleet", "fleet_dense"],
+    "C03": ["lines", "congestion", "diamonds", "combiners", "splitters", "conveyors", "draining", "nonblocking_fleet", "fleet_dense", "discards"],
     "C08": ["lines", "congestion", "diamonds", "combiners", "splitters", "conveyors"],
-    "C09": ["lines", "congestion", "fans", "combiners", "splitters", "nonblocking_fleet"],
-    "C10": ["lines", "congestion", "diamonds", "fans", "combiners", "splitters", "conveyors", "draining", "nonblocking_fleet", "fleet_dense"],
-    "C15": ["diamonds", "fans", "combiners", "splitters", "invalid_indices"],
+    "C09": ["lines", "congestion", "fans", "combiners", "splitters", "nonblocking_fleet", "discards"],
+    "C10": ["lines", "congestion", "diamonds", "fans", "combiners", "splitters", "conveyors", "draining", "nonblocking_fleet", "fleet_dense", "discards"],
+    "C15": ["diamonds", "fans", "combiners", "splitters", "invalid_indices", "discards"],
     "C16": ["combiners", "splitters"],
-    "C17": ["lines", "congestion", "diamonds", "splitters", "combiners", "conveyors"],
-    "C18": ["lines", "congestion", "diamonds", "combiners", "splitters", "conveyors", "nonblocking_fleet", "fleet_dense"],
-    "C20": ["lines", "congestion", "diamonds", "fans", "combiners", "splitters", "conveyors", "invalid", "c20_extra"],
+    "C17": ["lines", "congestion", "diamonds", "splitters", "combiners", "conveyors", "discards"],
+    "C18": ["lines", "congestion", "diamonds", "combiners", "splitters", "conveyors", "nonblocking_fleet", "fleet_dense", "discards"],
+    "C20": ["lines", "congestion", "diamonds", "fans", "combiners", "splitters", "conveyors", "invalid", "c20_extra", "fleet_dense", "nonblocking_fleet", "discards"],
 }
 
 
@@ -227,19 +259,25 @@ def _h(sp):
     return hashlib.sha1(json.dumps(sp.to_json(), sort_keys=True).encode()).hexdigest()[:6]
 
 
+def s_monitors(prop, sp):
+    """The monitor classes an Engine-S job of this property runs on this subject (also used by --replay)."""
+    mons = list(M.MONITORS.get(prop, []))
+    if prop == "C20":
+        mons = [M.C20S]
+    if prop == "C12" and sp.get("order_only"):
+        from . import conveyor_ref
+        mons = [M.Avail, conveyor_ref.C12Order]
+    if prop == "C04" and sp.kind in ("cconv", "sconv"):
+        from . import conveyor_ref
+        mons.append(conveyor_ref.C04Conv)
+    return mons
+
+
 def run_job(job, seed):
     if job["engine"] == "S":
         sp = Spec.from_json(job["spec"])
         prop = job["prop"]
-        mons = list(M.MONITORS.get(prop, []))
-        if prop == "C20":
-            mons = [M.C20S]
-        if prop == "C12" and sp.get("order_only"):
-            from . import conveyor_ref
-            mons = [M.Avail, conveyor_ref.C12Order]
-        if prop == "C04" and sp.kind in ("cconv", "sconv"):
-            from . import conveyor_ref
-            mons.append(conveyor_ref.C04Conv)
+        mons = s_monitors(prop, sp)
         probe = PROBES.get(prop)
         r = engine_s.explore(sp, prop, mons, probe=probe, seed=seed, **job["caps"])
         d = r.to_json()
@@ -340,7 +378,14 @@ def replay_file(path):
     if v.get("engine", "S") == "S":
         sp = Spec.from_json(v["spec"])
         prop = v["property"]
-        w, viols = replay(sp, [tuple(o) for o in v["history"]], M.MONITORS.get(prop, []) + [M.C20S])
+        mons = s_monitors(prop, sp)
+        hist = [tuple(o) for o in v["history"]]
+        w, viols = replay(sp, hist, mons + ([M.C20S] if M.C20S not in mons else []))
+        probe = PROBES.get(prop)
+        if probe is not None and w.crashed is None:
+            import collections as _c
+            viols = list(viols) + list(probe(w, tuple(hist), lambda h, extra, with_mons=False: replay(
+                sp, tuple(h) + tuple(extra), mons if with_mons else None), _c.Counter()) or [])
         for o in w.log:
             print("t=%-5s %-22s ret=%r granted=%s" % (o["t"], o["op"], o["ret"], [t.idx for t in o["granted"]]))
         if w.crashed:
